@@ -215,6 +215,11 @@ func (e *Exec) builtin(name string, c *ssa.CallCommon, args []Value, fr *frame) 
 		return Iface{}
 	case "print", "println":
 		return nil
+	case "ssa:wrapnilchk":
+		if p, ok := args[0].(Ptr); ok && p.Obj == nil {
+			e.goPanicf("value method called using nil pointer")
+		}
+		return args[0]
 	case "min", "max":
 		a, b := args[0].(*smt.Term), args[1].(*smt.Term)
 		_, signed, _ := intWidth(c.Args[0].Type())
